@@ -375,26 +375,41 @@ pub fn max_name_len(chroms: &Vec<Chrom>) -> (r: u32)
     m
 }
 
-/// `let key_bytes = &mut vec![0u8; n]; key_bytes[..name.len()].copy_from_slice(name);`
-/// requires = the real panic condition of the slice index (`name.len() <= n`)
-pub fn padded(name: &Vec<u8>, n: usize) -> (r: Vec<u8>)
-    requires name@.len() <= n,
-    ensures r@ == pad(name@, n as int),
+/// `vec![0u8; n]`
+pub fn zero_vec(n: usize) -> (r: Vec<u8>)
+    ensures r@ == zeros(n as int),
 {
     let mut v: Vec<u8> = Vec::new();
     let mut i: usize = 0;
     while i < n
-        invariant
-            i <= n, name@.len() <= n, v@.len() == i,
-            forall|j: int| 0 <= j < i ==> (#[trigger] v@[j]) == (if j < name@.len() { name@[j] } else { 0u8 }),
+        invariant i <= n, v@.len() == i, forall|j: int| 0 <= j < i ==> (#[trigger] v@[j]) == 0u8,
         decreases n - i,
     {
-        let x = if i < name.len() { name[i] } else { 0u8 };
-        v.push(x);
+        v.push(0u8);
         i = i + 1;
     }
-    proof { assert(v@ =~= pad(name@, n as int)); }
+    proof { assert(v@ =~= zeros(n as int)); }
     v
+}
+
+/// `buf[..src.len()].copy_from_slice(src)`: requires = the real panic condition of the slice index;
+/// only the first `src.len()` bytes change, whatever the buffer held beyond them stays
+pub fn copy_prefix(buf: &mut Vec<u8>, src: &Vec<u8>)
+    requires src@.len() <= old(buf)@.len(),
+    ensures final(buf)@ == src@ + old(buf)@.subrange(src@.len() as int, old(buf)@.len() as int),
+{
+    let mut i: usize = 0;
+    while i < src.len()
+        invariant
+            i <= src@.len(), src@.len() <= buf@.len(), buf@.len() == old(buf)@.len(),
+            forall|j: int| 0 <= j < i ==> (#[trigger] buf@[j]) == src@[j],
+            forall|j: int| i <= j < buf@.len() ==> (#[trigger] buf@[j]) == old(buf)@[j],
+        decreases src@.len() - i,
+    {
+        buf.set(i, src[i]);
+        i = i + 1;
+    }
+    proof { assert(buf@ =~= src@ + old(buf)@.subrange(src@.len() as int, old(buf)@.len() as int)); }
 }
 
 pub fn write_chrom_tree(file: &mut Sink, chroms: Vec<Chrom>,
@@ -473,8 +488,10 @@ pub fn write_chrom_tree(file: &mut Sink, chroms: Vec<Chrom>,
             assert(chroms@[i__1 as int].0@.len() <= key);
         }
         let ghost prev = file@;
-        let key_bytes = &padded(chrom, max_bytes as usize);
-        file.put_bytes(key_bytes.as_slice())?;
+        let mut key_bytes__v = zero_vec(max_bytes as usize);
+        let chrom_bytes = chrom;
+        copy_prefix(&mut key_bytes__v, chrom_bytes);
+        file.put_bytes(key_bytes__v.as_slice())?;
         file.put_u32(*id)?;
         let length = &chroms[i__1].2;
         file.put_u32(*length)?;
